@@ -20,7 +20,8 @@ META = {
                         "alpha>0 (uninterpreted pow + axioms) N=5",
                "thorough": "API: N in {5,6,7,9}, alpha in {1,2,3,1/2,3/2}, more gap patterns; kernel symbolic x N<=6"},
     "outside": ["more samples than the bound (the property's ~10^3)", "float rounding (terms are exact reals)",
-                "spline smoothing (s != None) after matching", "symbolic x at API level (only at kernel level)"],
+                "spline smoothing (s != None) after matching", "symbolic x at API level (only at kernel level)", "kernel with symbolic x, N=5, alpha=2: the feasibility of a zero "
+                "denominator under the rectangle rule is not decided by z3/nlsat within 20 minutes (dropped from the thorough tier)"],
     "assumptions": ["precondition of the property: selected fixed points pairwise distinct with >= 1 interior sample; "
                     "for explicitly given fixed points, the closest reference points are distinct",
                     "symbolic-alpha family: pow is uninterpreted with axioms pow(0)=0, pow(1)=1, 0<b<1 -> 0<pow(b)<1, "
